@@ -496,6 +496,28 @@ def main():
         # exclude counterexamples that are exactly a recorded known finding
         if cex and cex.get("finding_id") and any(f["id"] == cex.get("finding_id") for f in findings):
             cex = None
+    # A failed obligation of an EDITED function without a failing input: was there a search that could have produced one?
+    # props/reach.json (tools/reach.py, coverage of every search on the unchanged tree) lists the functions each search executes.
+    # If a search of this property ran to completion, executes the function and found nothing, the check cannot tell code that
+    # breaks the contract from a proof script that no longer fits the edited text (moved hints, a local whose meaning was
+    # inverted): UNDECIDED.  If no search executes the function nothing could have exonerated it: VIOLATION (no-failing-input-found).
+    if failed_real and not cex and not new_violation_from_replay:
+        try:
+            reach_tab = json.load(open(os.path.join(ROOT, "props", "reach.json")))
+        except Exception:
+            reach_tab = {}
+        ran = []
+        if search_res and not search_res.get("error"):
+            ran.append(search_res.get("name"))
+            ran += [x.get("name") for x in search_res.get("also_ran", []) if x.get("cases")]
+        ran = [x for x in ran if x]
+        for fr in list(failed_real):
+            by = [nm for nm in ran if fr["obligation"] in reach_tab.get(nm, [])]
+            if by:
+                failed_real.remove(fr)
+                undecided.append("obligation %s of an edited function failed, but the bounded search%s %s execute%s it and found no failing input in %s cases: not attributable to the code (proof script vs. edited text)" % (
+                    fr["obligation"], "" if len(by) == 1 else "es", ", ".join(by), "s" if len(by) == 1 else "", search_res.get("cases")))
+                notes.append("verifier output for %s: %s" % (fr["obligation"], (fr["messages"][0][:600] if fr["messages"] else "")))
     for fr in failed_real:
         violations.append(fr)
     for v in new_violation_from_replay:
